@@ -84,6 +84,17 @@ def run_harness(ctx, n, seed, name="cases.jsonl", maxreq=3000, env=None):
     return ctx.read_jsonl(os.path.join(ctx.work, name)) if ok else []
 
 
+def run_e2e(ctx):
+    """the real socks / elastic / docker commands against loopback services (also used by C13 for the error records)"""
+    sx = os.path.join(ctx.work, "sx")
+    rc, out = verif.sh(["go", "build", "-o", sx, "."], env=verif.GOENV, cwd=verif.REPO, timeout=900)
+    if rc != 0:
+        ctx.broken.append(("correspondence: the sx binary does not build", out[-1500:]))
+        return []
+    ok, _ = ctx.harness_run("c08", ["-e2e", sx, "-out", "e2e.jsonl"], timeout=300)
+    return ctx.read_jsonl(os.path.join(ctx.work, "e2e.jsonl")) if ok else []
+
+
 def run(ctx):
     quick = ctx.tier == "quick"
     ctx.trusted += ["Base/Net.v is the assumed semantics of Go channels, select, close, WaitGroup and context cancellation",
@@ -131,13 +142,8 @@ def run(ctx):
                 ctx.findings.append({"key": "wired:" + o["rate"], "what": why, "replay": path})
     if rows:
         # the real socks / elastic / docker commands end to end against loopback services, one target listed twice
-        sx = os.path.join(ctx.work, "sx")
-        rc, out = verif.sh(["go", "build", "-o", sx, "."], env=verif.GOENV, cwd=verif.REPO, timeout=900)
-        if rc != 0:
-            ctx.broken.append(("correspondence: the sx binary does not build", out[-1500:]))
-        else:
-            ok, _ = ctx.harness_run("c08", ["-e2e", sx, "-out", "e2e.jsonl"], timeout=300)
-            for o in (ctx.read_jsonl(os.path.join(ctx.work, "e2e.jsonl")) if ok else []):
+        if True:
+            for o in run_e2e(ctx):
                 want = {}
                 for t in o["targets"]:
                     want[t] = want.get(t, 0) + 1
@@ -150,13 +156,17 @@ def run(ctx):
                     why = "an output line is not a complete record: %r" % o["bad_line"][:120]
                 elif o["probes"] != want:
                     why = "targets probed %s, the file lists %s" % (o["probes"], want)
+                elif o.get("bad_entries") and o["err_records"] != o["bad_entries"]:
+                    why = "%d entries of the target file cannot become a probe but %d error records are written to stderr " \
+                          "(each failed request yields exactly one error record)" % (o["bad_entries"], o["err_records"])
                 elif o["records"] != want:
                     why = "%d probes detected a service but the records printed are %s (one target is listed twice: every " \
                           "probe yields its own record)" % (sum(want.values()), o["records"])
                 if why:
-                    why = "sx %s --json -f <3 ip/port pairs, one listed twice> -w 1: %s" % (o["cmd"], why)
-                    path = ctx.write_replay("e2e-" + o["cmd"], {"property": "C08", "what": why, "input": {"args": o["args"], "targets": o["targets"]}, "observed": o})
-                    ctx.findings.append({"key": "e2e:" + o["cmd"], "what": why, "replay": path})
+                    why = "sx %s --json -f <3 ip/port pairs, one listed twice%s> -w 1: %s" % (
+                        o["cmd"], ", then %d entries with an invalid address" % o["bad_entries"] if o.get("bad_entries") else "", why)
+                    path = ctx.write_replay("e2e-" + o["cmd"] + ("-bad" if o.get("bad_entries") else ""), {"property": "C08", "what": why, "input": {"args": o["args"], "targets": o["targets"]}, "observed": o})
+                    ctx.findings.append({"key": "e2e:" + o["cmd"] + (":bad-entries" if o.get("bad_entries") else ""), "what": why, "replay": path})
     if model_ok and rows:
         small = [o for o in rows if len(o["reqs"] or []) <= 120 and o["w"] <= 16 and not o["panic"] and o["returned"]]
         small = small[:48 if quick else 400]
